@@ -20,7 +20,7 @@ ASSUMPTIONS = [
     "shooting growth of the Nyquist mode bounded by exp(13.8) by construction of dx,dy (rounding model in pbt/tol.py)",
     "levels ascending (ordering is C10's subject)",
 ]
-TOLERANCES = {"double": "(1e-12 + 4096*eps*G) * max(|q0|_1*max|fp|, max|forward|)", "single": "1e-4 * same scale"}
+TOLERANCES = {"double": "(1e-12 + 4096*eps*G) * max(|q0|_1*max|fp|, max|forward|)", "single": "1e-5 * same scale (calibrated maximum 2.5e-7)"}
 BUDGET = {"quick": dict(examples=1500, shards=1), "thorough": dict(examples=12000, shards=16)}
 
 
